@@ -71,6 +71,7 @@ type Sched struct {
 	live   int32
 	dead   int32
 	until  time.Time
+	ack    chan struct{}
 
 	Steps     int
 	Branching int // steps with >= 2 candidates
@@ -87,6 +88,7 @@ func NewSched(t *Tape) *Sched {
 		MaxSteps:  20000,
 		HangAfter: 120 * time.Second,
 		cells:     make([]cell, 1<<15),
+		ack:       make(chan struct{}),
 		Hash:      14695981039346656037,
 	}
 }
@@ -198,6 +200,12 @@ func (s *Sched) GateOpt(key string, pred Pred, flags int) int {
 	for {
 		time.Sleep(s.quantum())
 		if ok, p := s.released(i); ok {
+			if settle {
+				// quiesce everything else that woke at this instant, then hand
+				// control back to the scheduler's Wait
+				synctest.Wait()
+				s.ack <- struct{}{}
+			}
 			return p
 		}
 		if s.isDead() {
@@ -397,7 +405,13 @@ func (s *Sched) Run() Status {
 			s.Trace = append(s.Trace, fmt.Sprintf("%d t=%v %s p=%d /%d", s.Steps, now.Sub(s.Start), key, param, len(cand)))
 		}
 		s.release(pick, param)
-		time.Sleep(time.Microsecond)
+		if settle {
+			// the parked tasks' polling sleeps advance the clock by one
+			// quantum; the released task answers once it is alone
+			<-s.ack
+		} else {
+			time.Sleep(time.Microsecond)
+		}
 	}
 }
 
